@@ -216,9 +216,10 @@ func c05Describe(c *c05Case) string {
 	return strings.Join(parts, " ")
 }
 
-// c05Decode canonicalises the disassembly of a case: "<codehex> <nrelocs> <relocs…> <mnemonic> <n> <args…>".
+// c05Decode canonicalises the disassembly of a case: "<codehex> <x86asm MemBytes> <nrelocs> <relocs…> <mnemonic> <n> <args…>".
 func c05Decode(c *c05Case) string {
-	head := []string{hex.EncodeToString(c.code), strconv.Itoa(len(c.relocs))}
+	// code, x86asm's memory access width (0 = x86asm does not decode it / reports none), relocations
+	head := []string{hex.EncodeToString(c.code), strconv.Itoa(c.xmem), strconv.Itoa(len(c.relocs))}
 	for _, r := range c.relocs {
 		head = append(head, strings.ReplaceAll(r, " ", "_"))
 	}
@@ -265,21 +266,49 @@ func c05Decode(c *c05Case) string {
 	return strings.Join(append(head, d), " ")
 }
 
+// c05Scripted: one witness per known class of findings (so that every listed
+// finding is re-examined on every run) and a few instructions that must pass.
 func c05Scripted(db *formsDB, g *c05Gen) []*c05Case {
 	type sc struct {
-		name, opcode string
-		ops          []operand.Op
+		stream, opcode string
+		sfx            []string
+		ops            []operand.Op
 	}
 	list := []sc{
-		{"F6-andq-u32", "ANDQ", []operand.Op{operand.Imm(0xffffffff), reg.RBX}},
-		{"F6-movq-mem-u32", "MOVQ", []operand.Op{operand.U32(0x80000000), operand.Mem{Base: reg.RAX}}},
-		{"F6-ok-i32", "ANDQ", []operand.Op{operand.I32(-1), reg.RBX}},
-		{"F7-movq-m32-xmm", "MOVQ", []operand.Op{operand.NewParamAddr("x", 0), reg.X3}},
-		{"F7-movq-xmm-m32", "MOVQ", []operand.Op{reg.X3, operand.NewParamAddr("ret", 8)}},
-		{"F5-addb-ah-r8", "ADDB", []operand.Op{reg.AH, reg.R8B}},
-		{"F5-movb-ch-sil", "MOVB", []operand.Op{reg.CH, reg.SIB}},
-		{"F10-call-label", "CALL", []operand.Op{operand.LabelRef("sub")}},
-		{"ok-addq", "ADDQ", []operand.Op{reg.R13, operand.Mem{Base: reg.R12, Index: reg.R13, Scale: 8, Disp: -128}}},
+		{"scripted:F6-andq-u32", "ANDQ", nil, []operand.Op{operand.Imm(0xffffffff), reg.RBX}},
+		{"scripted:F6-movq-mem-u32", "MOVQ", nil, []operand.Op{operand.U32(0x80000000), operand.Mem{Base: reg.RAX}}},
+		{"scripted:F6-pushq-u32", "PUSHQ", nil, []operand.Op{operand.U32(0x80000000)}},
+		{"scripted:ok-andq-i32", "ANDQ", nil, []operand.Op{operand.I32(-1), reg.RBX}},
+		{"scripted:ok-movq-u32-reg", "MOVQ", nil, []operand.Op{operand.U32(0xffffffff), reg.R9}},
+		{"scripted:ok-movq-imm64", "MOVQ", nil, []operand.Op{operand.U64(0x8000000000000001), reg.R9}},
+		{"scripted:F7-movq-m32-xmm", "MOVQ", nil, []operand.Op{operand.NewParamAddr("x", 0), reg.X3}},
+		{"scripted:F7-movq-xmm-m32", "MOVQ", nil, []operand.Op{reg.X3, operand.NewParamAddr("ret", 8)}},
+		{"scripted:F7-movq-r32-xmm", "MOVQ", nil, []operand.Op{reg.ECX, reg.X3}},
+		{"scripted:F7-vsqrtpd-bcst", "VSQRTPD", []string{"BCST"}, []operand.Op{operand.Mem{Base: reg.RAX}, reg.X3}},
+		{"scripted:F5-addb-ah-r8", "ADDB", nil, []operand.Op{reg.AH, reg.R8B}},
+		{"scripted:F5-movb-ch-sil", "MOVB", nil, []operand.Op{reg.CH, reg.SIB}},
+		{"scripted:F5-movbqzx-ah", "MOVBQZX", nil, []operand.Op{reg.AH, reg.RBX}},
+		{"scripted:ok-movb-ah-bl", "MOVB", nil, []operand.Op{reg.AH, reg.BL}},
+		{"scripted:crc32b-dil", "CRC32B", nil, []operand.Op{reg.DIB, reg.EBP}},
+		{"scripted:ok-crc32b-r8", "CRC32B", nil, []operand.Op{reg.R9B, reg.EBP}},
+		{"scripted:rdrandl-r64", "RDRANDL", nil, []operand.Op{reg.R10}},
+		{"scripted:cvtsd2sl-r64", "CVTSD2SL", nil, []operand.Op{reg.X1, reg.RAX}},
+		{"scripted:ok-cvtsd2sq-r64", "CVTSD2SQ", nil, []operand.Op{reg.X1, reg.RAX}},
+		{"scripted:xchgl-eax-eax", "XCHGL", nil, []operand.Op{reg.EAX, reg.EAX}},
+		{"scripted:nop", "NOP", nil, nil},
+		{"scripted:rel", "JMP", nil, []operand.Op{operand.Rel(5)}},
+		{"scripted:F10-call-label", "CALL", nil, []operand.Op{operand.LabelRef("sub")}},
+		{"scripted:ok-jmp-label", "JMP", nil, []operand.Op{operand.LabelRef("done")}},
+		{"k0mask", "VADDPD", nil, []operand.Op{reg.Z1, reg.Z2, reg.K0, reg.Z3}},
+		{"scripted:imm8-negative", "PSHUFD", nil, []operand.Op{operand.I8(-1), reg.X1, reg.X2}},
+		{"scripted:imm8-high", "BTQ", nil, []operand.Op{operand.U8(0x80), reg.RAX}},
+		{"hivec", "ADDPD", nil, []operand.Op{reg.X17, reg.X1}},
+		{"scripted:jmp-sym-mem", "JMP", nil, []operand.Op{operand.NewDataAddr(operand.NewStaticSymbol("tbl"), 8)}},
+		{"scripted:ok-jmp-mem", "JMP", nil, []operand.Op{operand.Mem{Base: reg.R12, Disp: 8}}},
+		{"malformed:sp-index", "ADDQ", nil, []operand.Op{operand.Mem{Base: reg.RAX, Index: reg.RSP, Scale: 1}, reg.RBX}},
+		{"malformed:narrow-base", "ADDQ", nil, []operand.Op{operand.Mem{Base: reg.EAX, Disp: 8}, reg.RBX}},
+		{"scripted:ok-addq", "ADDQ", nil, []operand.Op{reg.R13, operand.Mem{Base: reg.R12, Index: reg.R13, Scale: 8, Disp: -128}}},
+		{"scripted:ok-evex", "VADDPD", []string{"BCST", "Z"}, []operand.Op{operand.Mem{Base: reg.R12, Disp: 8}, reg.Z17, reg.K3, reg.Z31}},
 	}
 	var out []*c05Case
 	for _, s := range list {
@@ -287,7 +316,7 @@ func c05Scripted(db *formsDB, g *c05Gen) []*c05Case {
 		if len(idxs) == 0 {
 			continue
 		}
-		c := g.buildOps(db, &db.rows[idxs[0]], "scripted:"+s.name, nil, s.ops)
+		c := g.buildOps(db, &db.rows[idxs[0]], s.stream, s.sfx, s.ops)
 		if c != nil {
 			out = append(out, c)
 		}
@@ -353,4 +382,151 @@ func c05Emit(o *out, db *formsDB, cases, panics []*c05Case) map[string]any {
 	st["forms_covered"] = len(forms)
 	st["forms_total"] = len(db.rows)
 	return st
+}
+
+// ---------------------------------------------------------------------------
+// Replay: rebuild cases from the canonical description of accept-asm /
+// accept-line request lines.
+// ---------------------------------------------------------------------------
+
+func c05DecReg(fields []string) (reg.Register, error) {
+	if len(fields) < 3 {
+		return nil, fmt.Errorf("bad register %v", fields)
+	}
+	k, _ := strconv.Atoi(fields[0])
+	i, _ := strconv.Atoi(fields[1])
+	m, _ := strconv.Atoi(fields[2])
+	for _, fam := range reg.Families {
+		if int(fam.Kind) != k {
+			continue
+		}
+		for _, p := range fam.Registers() {
+			if reg.Kind(k) == reg.KindPseudo {
+				if len(fields) > 3 && p.Asm() == fields[3] {
+					return p, nil
+				}
+				continue
+			}
+			if int(p.PhysicalIndex()) == i && int(p.Mask()) == m {
+				return p, nil
+			}
+		}
+	}
+	return nil, fmt.Errorf("no such register %v", fields)
+}
+
+func c05DecOp(tok string) (operand.Op, error) {
+	f := strings.Split(tok, ":")
+	switch f[0] {
+	case "r":
+		return c05DecReg(f[1:])
+	case "m":
+		if len(f) != 7 {
+			return nil, fmt.Errorf("bad memory operand %q", tok)
+		}
+		name, err := unhexs(f[1])
+		if err != nil {
+			return nil, err
+		}
+		d, _ := strconv.Atoi(f[3])
+		sc, _ := strconv.Atoi(f[6])
+		m := operand.Mem{Symbol: operand.Symbol{Name: name, Static: f[2] == "1"}, Disp: d, Scale: uint8(sc)}
+		if f[4] != "-" {
+			if m.Base, err = c05DecReg(strings.Split(f[4], ".")); err != nil {
+				return nil, err
+			}
+		}
+		if f[5] != "-" {
+			if m.Index, err = c05DecReg(strings.Split(f[5], ".")); err != nil {
+				return nil, err
+			}
+		}
+		return m, nil
+	case "i":
+		if len(f) != 3 {
+			return nil, fmt.Errorf("bad constant %q", tok)
+		}
+		switch f[1] {
+		case "u8", "u16", "u32", "u64":
+			v, err := strconv.ParseUint(f[2], 10, 64)
+			if err != nil {
+				return nil, err
+			}
+			switch f[1] {
+			case "u8":
+				return operand.U8(v), nil
+			case "u16":
+				return operand.U16(v), nil
+			case "u32":
+				return operand.U32(v), nil
+			}
+			return operand.U64(v), nil
+		default:
+			v, err := strconv.ParseInt(f[2], 10, 64)
+			if err != nil {
+				return nil, err
+			}
+			switch f[1] {
+			case "i8":
+				return operand.I8(v), nil
+			case "i16":
+				return operand.I16(v), nil
+			case "i32":
+				return operand.I32(v), nil
+			}
+			return operand.I64(v), nil
+		}
+	case "l":
+		v, err := strconv.ParseInt(f[1], 10, 32)
+		return operand.Rel(v), err
+	case "b":
+		name, err := unhexs(f[1])
+		return operand.LabelRef(name), err
+	}
+	return nil, fmt.Errorf("bad operand %q", tok)
+}
+
+// c05Replay rebuilds the cases named by request lines (accept-asm lines; other kinds are regenerated with them).
+func c05Replay(db *formsDB, g *c05Gen, lines []string) ([]*c05Case, error) {
+	var out []*c05Case
+	seen := map[string]bool{}
+	for _, l := range lines {
+		f := strings.Fields(l)
+		if len(f) < 8 || (f[0] != "accept-asm" && f[0] != "accept-line") {
+			continue
+		}
+		n, err := strconv.Atoi(f[7])
+		if err != nil || len(f) < 8+n {
+			return nil, fmt.Errorf("bad request line %q", l)
+		}
+		key := strings.Join(f[1:8+n], " ")
+		if seen[key] {
+			continue
+		}
+		seen[key] = true
+		var ops []operand.Op
+		for _, t := range f[8 : 8+n] {
+			op, err := c05DecOp(t)
+			if err != nil {
+				return nil, err
+			}
+			ops = append(ops, op)
+		}
+		idxs := db.byOpcode[f[1]]
+		if len(idxs) == 0 {
+			return nil, fmt.Errorf("unknown opcode %q", f[1])
+		}
+		var sfx []string
+		if f[2] != "-" {
+			sfx = strings.Split(f[2], ".")
+		}
+		c := g.buildOps(db, &db.rows[idxs[0]], f[6], sfx, ops)
+		if c == nil {
+			// the constructor rejects it now: nothing is emitted for a rejected instruction
+			g.stats["replay_ctor_rejected"]++
+			continue
+		}
+		out = append(out, c)
+	}
+	return out, nil
 }
